@@ -191,7 +191,16 @@ def register(reg, S):
                  ] + note_post + sus_post + end_post + hopo_post + sp_post + [
                  # the name of this whole postcondition, used opaquely by the grouping loop
                  ("def:NEPOST", "opaque('NEPOST', datas, prev_event, bpm_events, result[0])")],
-        props=["C01", "C02", "C03", "C04", "C05", "C11", "C12"]))
+        props=["C01", "C02", "C03", "C04", "C05", "C11", "C12"],
+        # which statement each clause carries (a clause without an entry - 'tick' - belongs to all seven):
+        # lanes: C02 (and what C03/C04 say is relative to the active lanes); lengths: C03; end time: the
+        # time of the end tick (C01/C11/C12) of C03's longest sustain; flags and HOPO rule: C04; star power: C05
+        clause_props={"lane": ["C02", "C03", "C04"], "bits": ["C02", "C03", "C04"],
+                      "time-is-TS": ["C01", "C03", "C11", "C12"], "index-is-gov": ["C01", "C11", "C12"],
+                      "open": ["C03"], "each-lane-length": ["C03"], "inactive-slots-empty": ["C03"], "no-lanes-is-zero": ["C03"],
+                      "tuple-": ["C03"], "end-time-": ["C01", "C03", "C11", "C12"],
+                      "tap": ["C04"], "first-is-strum": ["C04"], "natural-hopo-rule-and-forcing": ["C04"],
+                      "sp-": ["C05"], "cursor-nonneg": ["C05"]}))
 
     # ------------------------------------------------------------------ grouping note data by tick
     ne_c = reg.by_name(I + "NoteEvent.from_parsed_data")
@@ -274,7 +283,7 @@ def register(reg, S):
             ], decreases="num_datas - i"),
         },
         locals={"events": SeqS(NE)},
-        props=["C02", "C03", "C04", "C05", "C11"]))
+        props=["C02", "C03", "C04", "C05", "C11", "C01", "C12"]))
 
     reg.note_per_event = per_event
     reg.note_structure = structure
